@@ -470,3 +470,88 @@ Proof.
   split; [vm_compute; reflexivity|]. split; [vm_compute; reflexivity|]. split; [reflexivity|].
   split; [vm_compute; reflexivity|]. split; [vm_compute; reflexivity|]. vm_compute. discriminate.
 Qed.
+
+(* ---------------------------------------------------------------- the string-level Full *)
+
+Lemma risk_default_track : is_risk default_track = false. Proof. vm_compute. reflexivity. Qed.
+
+Definition good_comp (x : bytes) : Prop := noslash x /\ is_nil_b x = false.
+
+Lemma fields_good : forall s, Forall good_comp (fields_slash s).
+Proof.
+  intros s. unfold fields_slash. pose proof (split_noslash s) as F. induction F as [|x l Hx Hl IH]; [constructor|].
+  simpl. destruct (is_nil_b x) eqn:N; simpl; [exact IH|]. constructor; [split; assumption|exact IH].
+Qed.
+
+(* the shapes a successful, non-empty result of Full can have, with its component list *)
+Inductive full_result (s : bytes) : bytes -> list bytes -> Prop :=
+  | FR1r a : fields_slash s = [a] -> is_risk a = true -> full_result s (default_track ++ slash :: a) [default_track; a]
+  | FR1t a : fields_slash s = [a] -> is_risk a = false -> full_result s (a ++ slash :: default_risk) [a; default_risk]
+  | FR2r a b : fields_slash s = [a; b] -> is_risk a = true ->
+      full_result s (default_track ++ slash :: (a ++ slash :: b)) [default_track; a; b]
+  | FR2t a b : fields_slash s = [a; b] -> is_risk a = false -> full_result s (a ++ slash :: b) [a; b]
+  | FR3 a b c : fields_slash s = [a; b; c] -> full_result s (a ++ slash :: (b ++ slash :: c)) [a; b; c].
+
+Lemma full_cases : forall s r, full_of_string s = Some r -> r = [] \/ exists cs, full_result s r cs.
+Proof.
+  intros s r H. unfold full_of_string in H. destruct (is_nil_b s); [inversion H; auto|].
+  destruct (fields_slash s) as [|a [|b [|c [|d l]]]] eqn:E; try discriminate.
+  - inversion H; auto.
+  - destruct (is_risk a) eqn:R; inversion H; subst; right; eexists; [apply FR1r|apply FR1t]; auto.
+  - destruct (is_risk a) eqn:R; inversion H; subst; right; eexists; [apply FR2r|apply FR2t]; auto.
+  - inversion H; subst. right. eexists. apply FR3. exact E.
+Qed.
+
+Lemma full_result_split : forall s r cs, full_result s r cs ->
+  split_slash r = cs /\ Forall good_comp cs /\ is_nil_b r = false.
+Proof.
+  intros s r cs H. pose proof (fields_good s) as F.
+  assert (Gt : good_comp default_track) by (split; [exact noslash_default_track|exact default_track_not_nil]).
+  assert (Gr : good_comp default_risk) by (split; [exact noslash_default_risk|exact (risk_not_nil _ risk_default)]).
+  inversion H; subst; match goal with X : fields_slash s = _ |- _ => rewrite X in F end; inv_forall;
+    repeat match goal with X : good_comp _ |- _ => destruct X end.
+  - split; [apply split2; assumption|]. split; [repeat constructor; assumption|]. apply nil_app_false_l; assumption.
+  - split; [apply split2; assumption|]. split; [repeat constructor; assumption|]. apply nil_app_false_l; assumption.
+  - split; [apply split3; assumption|]. split; [repeat constructor; assumption|]. apply nil_app_false_l; assumption.
+  - split; [apply split2; assumption|]. split; [repeat constructor; assumption|]. apply nil_app_false_l; assumption.
+  - split; [apply split3; assumption|]. split; [repeat constructor; assumption|]. apply nil_app_false_l; assumption.
+Qed.
+
+(* normalising twice equals normalising once *)
+Theorem full_string_idempotent : forall s r, full_of_string s = Some r -> full_of_string r = Some r.
+Proof.
+  intros s r H. destruct (full_cases s r H) as [E|[cs HR]]; [subst; reflexivity|].
+  destruct (full_result_split s r cs HR) as [Hs [Hg Hn]].
+  assert (Hf : fields_slash r = cs).
+  { apply fields_of_split; [exact Hs|]. clear - Hg. induction Hg as [|x l [_ Hx] _ IH]; constructor; assumption. }
+  unfold full_of_string. rewrite Hn, Hf.
+  inversion HR; subst; cbn [join_slash]; rewrite ?risk_default_track;
+    repeat match goal with X : is_risk ?a = false |- context [is_risk ?a] => rewrite X end; reflexivity.
+Qed.
+
+(* a non-empty result is track/risk or track/risk/branch with no empty component, and where Full fills in or places
+   the risk itself (a single component, or two components starting with a risk name) the risk position holds a table
+   entry. With three components, or two starting with a track, the input's own second component is passed through. *)
+Theorem full_string_shape : forall s r, full_of_string s = Some r ->
+  r = [] \/
+  exists cs, split_slash r = cs /\ (List.length cs = 2%nat \/ List.length cs = 3%nat) /\
+             Forall (fun c => c <> []) cs /\
+             ((List.length (fields_slash s) = 1%nat \/
+               (List.length (fields_slash s) = 2%nat /\ is_risk (hd [] (fields_slash s)) = true)) ->
+              In (nth 1 cs []) risks).
+Proof.
+  intros s r H. destruct (full_cases s r H) as [E|[cs HR]]; [left; exact E|]. right. exists cs.
+  destruct (full_result_split s r cs HR) as [Hs [Hg _]].
+  split; [exact Hs|]. split; [inversion HR; subst; auto|].
+  split; [clear - Hg; induction Hg as [|x l [_ Hx] _ IH]; constructor; [apply is_nil_b_false; exact Hx|exact IH]|].
+  assert (risk_in : forall x, is_risk x = true -> In x risks).
+  { intros x Hx. Transparent is_risk. unfold is_risk in Hx. Opaque is_risk.
+    apply existsb_exists in Hx. destruct Hx as [y [Hy Hb]]. apply beq_eq in Hb. subst y. exact Hy. }
+  intros Hin. inversion HR; subst; cbn [nth];
+    match goal with X : fields_slash s = _ |- _ => rewrite X in Hin; cbn [List.length hd] in Hin end.
+  - apply risk_in; assumption.
+  - apply risk_in. exact risk_default.
+  - apply risk_in; assumption.
+  - destruct Hin as [Hin|[_ Hin]]; [discriminate|]. match goal with X : is_risk a = false |- _ => rewrite X in Hin end. discriminate.
+  - destruct Hin as [Hin|[Hin _]]; discriminate.
+Qed.
